@@ -232,8 +232,9 @@ def c19(tier, replay=None):
         for o in edges:
             if json.dumps(o["h"], sort_keys=True) not in seen:
                 jobs.append(VJob(o["h"], o["s"], 0))
-        if tier == "quick" and len(jobs) > 25000:
-            jobs = rnd.sample(jobs, 25000)
+        cap = 25000 if tier == "quick" else 60000
+        if len(jobs) > cap:
+            jobs = rnd.sample(jobs, cap)
         results = run_vjobs(binary, jobs)
         bad = [(j, d, err) for j, d, err in results if d]
         per = collections.Counter()
